@@ -24,29 +24,36 @@ theorem finallyBlock_eq (s : St) : ∃ lg,
   obtain ⟨lg, h⟩ := terminateAndReset_eq { s with jobs := [], jobsSet := [], running := false }
   exact ⟨lg, by simp only [h]⟩
 
-theorem abort_eq (c : Cfg) (s : St) : ∃ lg pk,
-    abort c s = { s with log := lg, parked := pk, aborting := true, aborted := true } ∧
-    (pk = s.parked ∨ pk = []) := by
+/-- `_abort`: whatever completes while `backend.abort_everything` runs (a hook point) finds `_aborting` already
+set and is a no-op: only the flags and the backend's bookkeeping change. -/
+theorem abort_eq (c : Cfg) (s : St) : ∃ lg pk sc ib,
+    abort c s = { s with log := lg, parked := pk, sched := sc, inCb := ib, aborting := true, aborted := true } ∧
+    pk.Sublist s.parked ∧ sc.length ≤ s.sched.length := by
   unfold abort
+  dsimp only
   by_cases h1 : s.aborted = true
-  · refine ⟨s.log, s.parked, ?_, Or.inl rfl⟩
-    simp only [h1, Bool.not_true, Bool.false_eq_true, if_false]
+  · refine ⟨s.log, s.parked, s.sched, s.inCb, ?_, List.Sublist.refl _, Nat.le_refl _⟩
+    rw [if_neg (by simp [h1])]
   · have h1' : s.aborted = false := by simpa using h1
+    have hq : Quiet (ev { s with aborting := true } ("abort " ++ (if s.managed then "1" else "0"))) := Or.inl rfl
+    obtain ⟨lg, pk, sc, ib, e, hsub, hsc⟩ := hook_nosleep_quiet c hq
+    rw [if_pos (by simp [h1'])]
+    rw [e]
     by_cases h2 : c.abortDrops = true
-    · refine ⟨("abort " ++ (if s.managed then "1" else "0")) :: s.log, [], ?_, Or.inr rfl⟩
-      simp only [h1', Bool.not_false, if_true, h2, ev]
-    · refine ⟨("abort " ++ (if s.managed then "1" else "0")) :: s.log, s.parked, ?_, Or.inl rfl⟩
-      simp only [h1', Bool.not_false, if_true, h2, ev, Bool.false_eq_true, if_false]
+    · refine ⟨lg, [], sc, ib, ?_, List.nil_sublist _, hsc⟩
+      rw [if_pos h2]; rfl
+    · refine ⟨lg, pk, sc, ib, ?_, hsub, hsc⟩
+      rw [if_neg h2]; rfl
 
-theorem handleException_eq (c : Cfg) (s : St) : ∃ lg pk,
-    handleException c s = { s with log := lg, parked := pk, exception := true, aborting := true, aborted := true, jobs := [], jobsSet := [], running := false, calling := false } ∧ (pk = s.parked ∨ pk = []) := by
-  show ∃ lg pk, (finallyBlock (abort c { s with exception := true })).1 = _ ∧ _
-  obtain ⟨lg1, pk, h1, hpk⟩ := abort_eq c { s with exception := true }
+theorem handleException_eq (c : Cfg) (s : St) : ∃ lg pk sc ib,
+    handleException c s = { s with log := lg, parked := pk, sched := sc, inCb := ib, exception := true, aborting := true, aborted := true, jobs := [], jobsSet := [], running := false, calling := false } ∧ pk.Sublist s.parked ∧ sc.length ≤ s.sched.length := by
+  show ∃ lg pk sc ib, (finallyBlock (abort c { s with exception := true })).1 = _ ∧ _
+  obtain ⟨lg1, pk, sc, ib, h1, hpk, hsc⟩ := abort_eq c { s with exception := true }
   obtain ⟨lg2, h2⟩ := finallyBlock_eq (abort c { s with exception := true })
   rw [h2]
   simp only
   rw [h1]
-  exact ⟨lg2, pk, rfl, hpk⟩
+  exact ⟨lg2, pk, sc, ib, rfl, hpk, hsc⟩
 
 /-! ### steps of the retrieving thread -/
 
@@ -319,9 +326,9 @@ theorem firstErrorJob_some {s : St} : ∀ {l : List Nat}, (∃ i ∈ l, (getTrk 
 /-- How the object is left when a call has ended. -/
 theorem idle_of_end {c : Cfg} {t0 : Nat} {s s' : St} (hT : InvT c t0 none s) (hcid : s.callId = s.callCtr)
     (hg : ∀ j, (getTrk s' j).callId = (getTrk s j).callId) (hlen : s'.trk.length = s.trk.length)
-    (hctr : s'.callCtr = s.callCtr) (hpk : s'.parked = s.parked ∨ s'.parked = [])
+    (hctr : s'.callCtr = s.callCtr) (hpk : s'.parked.Sublist s.parked) (hq : Quiet s')
     (hrun : s'.running = false) (hj : s'.jobs = []) (hjs : s'.jobsSet = []) : Idle s' := by
-  refine ⟨hrun, hj, hjs, ?_, ?_, ?_⟩
+  refine ⟨hrun, hj, hjs, ?_, ?_, ?_, hq⟩
   · intro j
     rw [hg, hctr, ← hcid]
     rcases Nat.lt_or_ge j t0 with h0 | h0
@@ -330,12 +337,8 @@ theorem idle_of_end {c : Cfg} {t0 : Nat} {s s' : St} (hT : InvT c t0 none s) (hc
       · exact Nat.le_of_eq (hT.ownId j h0 h1)
       · rw [getTrk_ge h1]; simp
   · intro j hj'
-    rcases hpk with hpk | hpk
-    · rw [hpk] at hj'; rw [hlen]; exact hT.parked_lt j hj'
-    · rw [hpk] at hj'; simp at hj'
-  · rcases hpk with hpk | hpk
-    · rw [hpk]; exact hT.parked_nodup
-    · rw [hpk]; simp
+    rw [hlen]; exact hT.parked_lt j (hpk.subset hj')
+  · exact hT.parked_nodup.sublist hpk
 
 theorem getResult_vals {s : St} {i : Nat} {l : List Nat} (hr : (getTrk s i).result = .vals l)
     (hs : (getTrk s i).status ≠ .error) :
